@@ -50,11 +50,16 @@ def assume(cond):
 
 def pick(x, n):
     """Deterministic decoding of a selector: exactly one path per value in
-    range(n); the last arm absorbs everything else."""
-    for v in range(n - 1):
-        if x == v:
-            return v
-    return n - 1
+    range(n), found by bisection (about log2(n) branch decisions); values below 0
+    are absorbed by the first arm and values >= n by the last."""
+    lo, hi = 0, n
+    while hi - lo > 1:
+        mid = (lo + hi) // 2
+        if x < mid:
+            hi = mid
+        else:
+            lo = mid
+    return lo
 
 
 def pick_in(x, n):
